@@ -23,7 +23,8 @@ CONSTANTS Keys,       \* battery types of this run
 
 VARIABLES ty, inst, doc, hist
 vars == <<ty, inst, doc, hist>>
-View == <<ty, doc>>
+\* mutants are identified by (type, document); instances stay distinct even if they render alike
+View == <<ty, doc, IF hist = <<>> THEN inst ELSE NoneI>>
 
 ASSUME Keys \subseteq AllKeys
 ASSUME PrintT(<<"SCHEMA", ToJson([k \in AllKeys |-> TypeOf(k)])>>)
